@@ -60,12 +60,11 @@ def verify_all_dependencies_exist(phases, errors):
     :arg phases: A map from phase names to phases
     :arg errors: An error list to which new errors get appended
     """
-    ids = {inst.id
-            for phase in phases.values()
-            for inst in phase.statements}
-
     # Check statements
     for phase in phases.values():
+        # Dependencies are resolved within the phase of the statement.
+        ids = {inst.id for inst in phase.statements}
+
         for inst in phase.statements:
             deps = set(inst.depends_on)
             if not deps <= ids:
@@ -75,6 +74,7 @@ def verify_all_dependencies_exist(phases, errors):
 
     # Check phases.
     for phase_name, phase in phases.items():
+        ids = {inst.id for inst in phase.statements}
         deps = set(phase.depends_on)
         if not deps <= ids:
             errors.extend(
